@@ -7,7 +7,7 @@ All statements are about the model `TTV.Spinner` (`Model/Reactor.lean`, `Model/S
 **every** history of steps on one reactor and one `Spinner` object - calls of `run` (any number of delayed calls
 before / inside `f`, any delays, any timeout - also one the reactor rejects, so that `run` raises before its
 `try … finally` -, stop requests at any instant, any signal handlers), `clear_junk()`, and the process installing
-signal handlers between the calls.
+signal handlers between the calls, and `swap` = the following calls go to the other of two Spinner objects on the reactor.
 
 * `holds_model`            : the executable spec `Spec.C15.holds` is true of the model's trace (headline)
 * `C15_result`             : a run that is not refused returns/raises exactly the declarative `expected sc`
@@ -18,6 +18,9 @@ signal handlers between the calls.
 * `C15_tie_scheduled_before_run`, `C15_tie_scheduled_by_f`, `C15_tie_stop_and_fire`, `C15_stop_before_fire`
                            : the ties at one instant, for all timeouts / values
 * `C15_guards_stale`, `C15_guards_stale_only`, `C15_guards_reentry` : refusals, and that they change nothing
+* `C15_late_firing_is_inert`, `C15_own_result_despite_late_firing` : the Deferred of an EARLIER run (of this or of the other
+                             Spinner on the reactor) firing or failing during a later run does nothing - the callbacks a run hangs
+                             on `f`'s Deferred are dead once the run is over; the later run returns its own result
 * `C15_rejected`, `C15_rejected_only` : a timeout the reactor rejects: `run` raises what `reactor.callLater` raised, nothing
                              observable has changed (the spinner keeps the handlers it saved in `_saved_signals`)
 * `C15_signals_every_call`, `C15_signals_history`, `C15_signals_model` : whenever `run` returns or raises, the
@@ -149,6 +152,9 @@ theorem live_step {w : W} (h : Live w) (c : DCall (QAct Act)) (rest : List (DCal
     | noop =>
       simp only [kindQ, kindOf, execCall, exec]
       exact ⟨⟨hatt, hdres, htc, hsucc, hfail, hspin⟩, by simp, by simp, by simp⟩
+    | late f k v =>
+      simp only [kindQ, kindOf, execCall, exec]
+      exact ⟨⟨hatt, hdres, htc, hsucc, hfail, hspin⟩, by simp, by simp, by simp⟩
     | addSel =>
       simp only [kindQ, kindOf, execCall, exec]
       exact ⟨⟨hatt, hdres, htc, hsucc, hfail, hspin⟩, by simp, by simp, by simp⟩
@@ -209,6 +215,7 @@ theorem done_step {r : Res} {w : W} (h : Done r w) (c : DCall (QAct Act)) (rest 
     | fail e => exact done_fireD (hbase _ hcr rfl rfl hsub)
     | stop => exact hbase _ rfl rfl rfl hsub
     | noop => exact hbase _ hcr rfl rfl hsub
+    | late f k v => exact hbase _ hcr rfl rfl hsub
     | addSel => exact hbase _ hcr rfl rfl hsub
     | setSig s h => exact hbase _ hcr rfl rfl hsub
     | reenter f => exact hbase _ hcr rfl rfl hsub
@@ -567,6 +574,7 @@ theorem exec_unattached (l : Nat) (a : Act) (w : W) (h : w.u.attached = false) :
     | none => simp [exec, fireD_unattached _ hd h, hd, h, fireRes]
   | stop => cases hd : w.u.dres <;> simp [exec, h, fireRes, hd]
   | noop => cases hd : w.u.dres <;> simp [exec, h, fireRes, hd]
+  | late f k v => cases hd : w.u.dres <;> simp [exec, h, fireRes, hd]
   | addSel => cases hd : w.u.dres <;> simp [exec, h, fireRes, hd]
   | setSig s x => cases hd : w.u.dres <;> simp [exec, h, fireRes, hd]
   | reenter f => cases hd : w.u.dres <;> simp [exec, h, fireRes, hd]
@@ -879,6 +887,7 @@ theorem exec_frame (l : Nat) (a : Act) (w : W) : ExecFrame l a w (exec l a w) :=
   | fail e => exact fireD_frame l _ _ w (by simp) rfl
   | stop => exact ⟨rfl, fun _ => rfl, fun _ h => h, by simp [exec], rfl, rfl, rfl, rfl, rfl, rfl, rfl⟩
   | noop => exact ⟨rfl, fun _ => rfl, fun _ h => h, by simp [exec], rfl, rfl, rfl, rfl, rfl, rfl, rfl⟩
+  | late f k v => exact ⟨rfl, fun _ => rfl, fun _ h => h, by simp [exec], rfl, rfl, rfl, rfl, rfl, rfl, rfl⟩
   | addSel => exact ⟨rfl, fun _ => rfl, fun _ h => h, by simp [exec], rfl, rfl, rfl, rfl, rfl, rfl, rfl⟩
   | setSig s h => exact ⟨rfl, fun _ => rfl, fun _ h => h, by simp [exec], rfl, by simp [exec], rfl, rfl, rfl, rfl, rfl⟩
   | reenter f => exact ⟨rfl, fun _ => rfl, fun _ h => h, by simp [exec], rfl, rfl, rfl, rfl, rfl, rfl, rfl⟩
@@ -967,6 +976,7 @@ theorem exec_cases (l : Nat) (a : Act) (w : W) :
     · exact Or.inr h
   | stop => exact Or.inl ⟨rfl, rfl, fun _ => rfl, rfl, rfl, Or.inr rfl⟩
   | noop => exact Or.inl ⟨rfl, rfl, id, rfl, rfl, Or.inl rfl⟩
+  | late f k v => exact Or.inl ⟨rfl, rfl, id, rfl, rfl, Or.inl rfl⟩
   | addSel => exact Or.inl ⟨rfl, rfl, id, rfl, rfl, Or.inl rfl⟩
   | setSig s h => exact Or.inl ⟨rfl, rfl, id, rfl, rfl, Or.inl rfl⟩
   | reenter f => exact Or.inl ⟨rfl, rfl, id, rfl, rfl, Or.inl rfl⟩
@@ -1837,65 +1847,81 @@ theorem runStep_link (sc : Scen) (w0 : W) (hidle : Idle w0) :
 theorem idle_setSig {w : W} (h : Idle w) (s k : Nat) : Idle { w with sigs := w.sigs.set s k } :=
   ⟨h.calls, h.sels, h.running, h.stopPatched⟩
 
+theorem idle_swap {w : W} (h : Idle w) (sp : Reactor.Spinner) : Idle { w with sp := sp } :=
+  ⟨h.calls, h.sels, h.running, h.stopPatched⟩
+
 theorem forRuns_model (p : Scen → List Junk → RunObs → Bool)
     (hp : ∀ sc w0, Idle w0 → p sc w0.sp.junk (runStep sc w0).2 = true) :
-    ∀ (steps : List Step) (w : W), Idle w → forRuns p steps (runSteps steps w) w.sp.junk = true
-  | [], _, _ => by simp [forRuns, runSteps]
-  | .run sc :: rest, w, h => by
+    ∀ (steps : List Step) (w : W) (other : Reactor.Spinner), Idle w →
+      forRuns p steps (runSteps steps w other) w.sp.junk other.junk = true
+  | [], _, _, _ => by simp [forRuns, runSteps]
+  | .run sc :: rest, w, other, h => by
       obtain ⟨hl, hi, _⟩ := runStep_link sc w h
       simp only [runSteps, step, forRuns, hp sc w h, Bool.true_and]
       rw [hl]
-      exact forRuns_model p hp rest _ hi
-  | .clearJunk :: rest, w, h => by
+      exact forRuns_model p hp rest _ other hi
+  | .clearJunk :: rest, w, other, h => by
       simp only [runSteps, step, forRuns]
-      exact forRuns_model p hp rest { w with sp := { w.sp with junk := [] } } ⟨h.calls, h.sels, h.running, h.stopPatched⟩
-  | .setSig s k :: rest, w, h => by
+      exact forRuns_model p hp rest { w with sp := { w.sp with junk := [] } } other ⟨h.calls, h.sels, h.running, h.stopPatched⟩
+  | .setSig s k :: rest, w, other, h => by
       simp only [runSteps, step, forRuns]
-      exact forRuns_model p hp rest { w with sigs := w.sigs.set s k } (idle_setSig h s k)
+      exact forRuns_model p hp rest { w with sigs := w.sigs.set s k } other (idle_setSig h s k)
+  | .swap :: rest, w, other, h => by
+      simp only [runSteps, forRuns]
+      exact forRuns_model p hp rest { w with sp := other } w.sp (idle_swap h other)
 
-theorem shape_model : ∀ (steps : List Step) (w : W), shape steps (runSteps steps w) = true
-  | [], _ => rfl
-  | .run sc :: rest, w => by simp only [runSteps, step, shape]; exact shape_model rest _
-  | .clearJunk :: rest, w => by simp only [runSteps, step, shape]; exact shape_model rest _
-  | .setSig s k :: rest, w => by simp only [runSteps, step, shape]; exact shape_model rest _
+theorem shape_model : ∀ (steps : List Step) (w : W) (other : Reactor.Spinner), shape steps (runSteps steps w other) = true
+  | [], _, _ => rfl
+  | .run sc :: rest, w, other => by simp only [runSteps, step, shape]; exact shape_model rest _ _
+  | .clearJunk :: rest, w, other => by simp only [runSteps, step, shape]; exact shape_model rest _ _
+  | .setSig s k :: rest, w, other => by simp only [runSteps, step, shape]; exact shape_model rest _ _
+  | .swap :: rest, w, other => by simp only [runSteps, shape]; exact shape_model rest _ _
 
-theorem clearOk_model : ∀ (steps : List Step) (w : W), Idle w → clearOk steps (runSteps steps w) w.sp.junk = true
-  | [], _, _ => by simp [clearOk, runSteps]
-  | .run sc :: rest, w, h => by
+theorem clearOk_model : ∀ (steps : List Step) (w : W) (other : Reactor.Spinner), Idle w →
+    clearOk steps (runSteps steps w other) w.sp.junk other.junk = true
+  | [], _, _, _ => by simp [clearOk, runSteps]
+  | .run sc :: rest, w, other, h => by
       obtain ⟨hl, hi, _⟩ := runStep_link sc w h
       simp only [runSteps, step, clearOk]
       rw [hl]
-      exact clearOk_model rest _ hi
-  | .clearJunk :: rest, w, h => by
+      exact clearOk_model rest _ other hi
+  | .clearJunk :: rest, w, other, h => by
       simp only [runSteps, step, clearOk, beq_self_eq_true, Bool.true_and]
-      exact clearOk_model rest { w with sp := { w.sp with junk := [] } } ⟨h.calls, h.sels, h.running, h.stopPatched⟩
-  | .setSig s k :: rest, w, h => by
+      exact clearOk_model rest { w with sp := { w.sp with junk := [] } } other ⟨h.calls, h.sels, h.running, h.stopPatched⟩
+  | .setSig s k :: rest, w, other, h => by
       simp only [runSteps, step, clearOk]
-      exact clearOk_model rest { w with sigs := w.sigs.set s k } (idle_setSig h s k)
+      exact clearOk_model rest { w with sigs := w.sigs.set s k } other (idle_setSig h s k)
+  | .swap :: rest, w, other, h => by
+      simp only [runSteps, clearOk]
+      exact clearOk_model rest { w with sp := other } w.sp (idle_swap h other)
 
 /-- the handlers thread through the history: each call finds what the previous step left -/
-theorem sigThread_model : ∀ (steps : List Step) (w : W), Idle w → sigThread steps (runSteps steps w) w.sigs = true
-  | [], _, _ => by simp [sigThread, runSteps]
-  | .run sc :: rest, w, h => by
+theorem sigThread_model : ∀ (steps : List Step) (w : W) (other : Reactor.Spinner), Idle w →
+    sigThread steps (runSteps steps w other) w.sigs = true
+  | [], _, _, _ => by simp [sigThread, runSteps]
+  | .run sc :: rest, w, other, h => by
       obtain ⟨_, hi, hb, ha⟩ := runStep_link sc w h
       simp only [runSteps, step, sigThread, hb, beq_self_eq_true, Bool.true_and]
       rw [ha]
-      exact sigThread_model rest _ hi
-  | .clearJunk :: rest, w, h => by
+      exact sigThread_model rest _ other hi
+  | .clearJunk :: rest, w, other, h => by
       simp only [runSteps, step, sigThread]
-      exact sigThread_model rest { w with sp := { w.sp with junk := [] } } ⟨h.calls, h.sels, h.running, h.stopPatched⟩
-  | .setSig s k :: rest, w, h => by
+      exact sigThread_model rest { w with sp := { w.sp with junk := [] } } other ⟨h.calls, h.sels, h.running, h.stopPatched⟩
+  | .setSig s k :: rest, w, other, h => by
       simp only [runSteps, step, sigThread, beq_self_eq_true, Bool.true_and]
-      exact sigThread_model rest { w with sigs := w.sigs.set s k } (idle_setSig h s k)
+      exact sigThread_model rest { w with sigs := w.sigs.set s k } other (idle_setSig h s k)
+  | .swap :: rest, w, other, h => by
+      simp only [runSteps, sigThread]
+      exact sigThread_model rest { w with sp := other } w.sp (idle_swap h other)
 
 theorem idle_init : Idle init := ⟨rfl, rfl, rfl, rfl⟩
 
 /-- **Headline.** The executable specification holds of the model's trace, for every input. -/
 theorem holds_model (i : Input) : holds i (model i) = true := by
-  have h := fun p hp => forRuns_model p hp i.steps init idle_init
+  have h := fun p hp => forRuns_model p hp i.steps init {} idle_init
   simp only [holds, clauses, List.all_cons, List.all_nil, Bool.and_true, Bool.and_eq_true, lift, model]
-  exact ⟨shape_model _ _, h _ clause_stale, h _ clause_rejected, h _ clause_reentry, h _ clause_result, h _ clause_clean,
-    h _ clause_signals, sigThread_model _ _ idle_init, h _ clause_junk, h _ clause_bounded, clearOk_model _ _ idle_init⟩
+  exact ⟨shape_model _ _ _, h _ clause_stale, h _ clause_rejected, h _ clause_reentry, h _ clause_result, h _ clause_clean,
+    h _ clause_signals, sigThread_model _ _ _ idle_init, h _ clause_junk, h _ clause_bounded, clearOk_model _ _ _ idle_init⟩
 
 /-! # The property theorems -/
 
@@ -2209,26 +2235,34 @@ model gives the loop suffices. -/
 theorem C15_loop_ends_by_crash (sc : Scen) (w0 : W) (hidle : Idle w0) :
     (spinPhase sc (afterPre sc w0)).crashed = true := (run_facts sc w0 hidle).crashed
 
-/-- **C15 (histories).**  All of the above holds at every step of every history: between the steps the world is
-idle, and `clear_junk()` returns exactly the junk of the last run. -/
-theorem C15_history_idle : ∀ (steps : List Step) (w : W), Idle w →
-    ∀ (s : Step) (pre post : List Step), steps = pre ++ s :: post →
-    ∃ w' : W, Idle w' ∧ runSteps steps w = runSteps pre w ++ (step s w').2 :: runSteps post (step s w').1
-  | [], _, _, s, pre, post, h => by cases pre <;> simp at h
-  | s0 :: rest, w, hw, s, [], post, h => by
-      simp only [List.nil_append, List.cons.injEq] at h
-      obtain ⟨rfl, rfl⟩ := h
-      exact ⟨w, hw, by simp [runSteps]⟩
-  | s0 :: rest, w, hw, s, p0 :: pre, post, h => by
+/-- **C15 (histories).**  All of the above holds at every step of every history - calls on either of two Spinner objects
+on the one reactor, `clear_junk()`, handler installations: between the steps the world is idle (so each call of `run` is a
+`runStep sc w'` with `Idle w'`), and `clear_junk()` returns exactly the junk of the last run of that Spinner. -/
+theorem C15_history_idle : ∀ (steps : List Step) (w : W) (other : Reactor.Spinner), Idle w →
+    ∀ (pre post : List Step), steps = pre ++ post →
+    ∃ (w' : W) (other' : Reactor.Spinner), Idle w' ∧ runSteps steps w other = runSteps pre w other ++ runSteps post w' other'
+  | steps, w, other, hw, [], post, h => by
+      simp only [List.nil_append] at h
+      subst h
+      exact ⟨w, other, hw, by simp [runSteps]⟩
+  | [], _, _, _, p0 :: pre, post, h => by simp at h
+  | s0 :: rest, w, other, hw, p0 :: pre, post, h => by
       simp only [List.cons_append, List.cons.injEq] at h
       obtain ⟨rfl, h⟩ := h
-      have hidle' : Idle (step s0 w).1 := by
-        cases s0 with
-        | run sc => exact (runStep_link sc w hw).2.1
-        | clearJunk => exact ⟨hw.calls, hw.sels, hw.running, hw.stopPatched⟩
-        | setSig s k => exact idle_setSig hw s k
-      obtain ⟨w', hw', heq⟩ := C15_history_idle rest (step s0 w).1 hidle' s pre post h
-      exact ⟨w', hw', by simp [runSteps, heq]⟩
+      cases s0 with
+      | run sc =>
+        obtain ⟨w', o', hw', heq⟩ := C15_history_idle rest _ other (runStep_link sc w hw).2.1 pre post h
+        exact ⟨w', o', hw', by simp only [runSteps, step, List.cons_append]; rw [heq]⟩
+      | clearJunk =>
+        obtain ⟨w', o', hw', heq⟩ := C15_history_idle rest { w with sp := { w.sp with junk := [] } } other
+          ⟨hw.calls, hw.sels, hw.running, hw.stopPatched⟩ pre post h
+        exact ⟨w', o', hw', by simp only [runSteps, step, List.cons_append]; rw [heq]⟩
+      | setSig s k =>
+        obtain ⟨w', o', hw', heq⟩ := C15_history_idle rest { w with sigs := w.sigs.set s k } other (idle_setSig hw s k) pre post h
+        exact ⟨w', o', hw', by simp only [runSteps, step, List.cons_append]; rw [heq]⟩
+      | swap =>
+        obtain ⟨w', o', hw', heq⟩ := C15_history_idle rest { w with sp := other } w.sp (idle_swap hw other) pre post h
+        exact ⟨w', o', hw', by simp only [runSteps, List.cons_append]; rw [heq]⟩
 
 /-- **C15 (signal handlers, every call).**  Whenever `run` returns or raises - its own result, `TimeoutError`,
 `NoResultError`, `StaleJunkError`, what `reactor.callLater` raised - every preserved signal has the handler it had
@@ -2244,30 +2278,55 @@ theorem C15_signals_every_call (sc : Scen) (w0 : W) (hidle : Idle w0) :
 /-- **C15 (signal handlers, by induction over the history).**  In every history of `run` calls (any timeouts, also
 rejected ones), `clear_junk()` and handler installations by the process, on one spinner: every call of `run` leaves
 the preserved handlers as it found them … -/
-theorem C15_signals_history : ∀ (steps : List Step) (w : W), Idle w →
-    ∀ o, Obs.run o ∈ runSteps steps w → preservedSame 0 o.sigBefore o.sigAfter = true
-  | [], _, _, o, h => by simp [runSteps] at h
-  | .run sc :: rest, w, hw, o, h => by
+theorem C15_signals_history : ∀ (steps : List Step) (w : W) (other : Reactor.Spinner), Idle w →
+    ∀ o, Obs.run o ∈ runSteps steps w other → preservedSame 0 o.sigBefore o.sigAfter = true
+  | [], _, _, _, o, h => by simp [runSteps] at h
+  | .run sc :: rest, w, other, hw, o, h => by
       simp only [runSteps, step, List.mem_cons] at h
       rcases h with h | h
       · injection h with h; subst h; exact clause_signals sc w hw
-      · exact C15_signals_history rest _ (runStep_link sc w hw).2.1 o h
-  | .clearJunk :: rest, w, hw, o, h => by
+      · exact C15_signals_history rest _ other (runStep_link sc w hw).2.1 o h
+  | .clearJunk :: rest, w, other, hw, o, h => by
       simp only [runSteps, step, List.mem_cons] at h
       rcases h with h | h
       · cases h
-      · exact C15_signals_history rest { w with sp := { w.sp with junk := [] } } ⟨hw.calls, hw.sels, hw.running, hw.stopPatched⟩ o h
-  | .setSig s k :: rest, w, hw, o, h => by
+      · exact C15_signals_history rest { w with sp := { w.sp with junk := [] } } other ⟨hw.calls, hw.sels, hw.running, hw.stopPatched⟩ o h
+  | .setSig s k :: rest, w, other, hw, o, h => by
       simp only [runSteps, step, List.mem_cons] at h
       rcases h with h | h
       · cases h
-      · exact C15_signals_history rest _ (idle_setSig hw s k) o h
+      · exact C15_signals_history rest _ other (idle_setSig hw s k) o h
+  | .swap :: rest, w, other, hw, o, h => by
+      simp only [runSteps, List.mem_cons] at h
+      rcases h with h | h
+      · cases h
+      · exact C15_signals_history rest { w with sp := other } w.sp (idle_swap hw other) o h
 
 /-- … and finds the handlers the previous step left (`sigThread`: only the process changes them between calls) -/
 theorem C15_signals_model (i : Input) :
     (∀ o, Obs.run o ∈ model i → preservedSame 0 o.sigBefore o.sigAfter = true) ∧
     sigThread i.steps (model i) [0, 0, 0, 0] = true :=
-  ⟨C15_signals_history i.steps init idle_init, sigThread_model i.steps init idle_init⟩
+  ⟨C15_signals_history i.steps init {} idle_init, sigThread_model i.steps init {} idle_init⟩
+
+/-- **C15 (runs are isolated from earlier runs).**  The callbacks a run hangs on `f`'s Deferred belong to that run:
+when the Deferred of an EARLIER run - of this Spinner or of another Spinner on the same reactor - fires or fails during
+a later run (it fired after its timeout, or after an interrupt), nothing happens: no result is recorded, no timeout call
+cancelled, the reactor is not crashed.  For the outcome of the later run such a firing counts like any other delayed
+call that does nothing. -/
+theorem C15_late_firing_is_inert (l : Nat) (failed : Bool) (back v : Nat) (w : W) :
+    exec l (.late failed back v) w = w ∧ kindOf (.late failed back v) = kindOf .noop ∧ fireRes (.late failed back v) = none :=
+  ⟨rfl, rfl, rfl⟩
+
+/-- … so the result of a run in whose course Deferreds of earlier runs fire is `expected sc`, which looks at the run's own
+Deferred only (`C15_result` for scenarios containing `.late` actions; an instance: the late value arrives at 1, the run's
+own value at 2 - the run returns its own) -/
+theorem C15_own_result_despite_late_firing (T v vOld k : Nat) (hT : 2 < T) (w0 : W) (hidle : Idle w0) (hj : w0.sp.junk = []) :
+    (runStep { timeout := T, pre := [], body := [.later 1 (.late false k vOld), .later 2 (.fire v)], term := .deferred } w0).2.result
+      = .value v := by
+  rw [C15_result _ w0 hidle hj rfl]
+  have h1 : ¬ T < 2 := by omega
+  have h2 : ¬ T ≤ 2 := by omega
+  simp [expected, syncRes, syncFire, syncStop, delayed, winner, kindOf, noStopBefore, laterKind, nowAct, List.filterMap_cons, hT, h1, h2]
 
 /-! ## non-vacuity: concrete histories (evaluated by the kernel) -/
 
@@ -2296,5 +2355,17 @@ example : (model ⟨false, [
     .run { timeout := 3, pre := [], body := [.later 1 (.fire 7)], term := .deferred }]⟩).filterMap
       (fun | .run o => some (o.result, o.sigBefore, o.sigAfter) | _ => none)
     = [(.rejected, [1, 0, 0, 0], [1, 0, 0, 0]), (.value 7, [2, 0, 0, 0], [2, 0, 0, 0])] := by decide
+
+/-- audit C15 v1: run 1 times out on its Deferred; during run 2 of the same Spinner that Deferred fires (1) before run 2's own
+(2): run 2 returns its own value.  audit C15 v2: run 1 of Spinner A is interrupted; during a run of Spinner B its Deferred
+fires: B's run is not disturbed -/
+example : resultsOf (model ⟨false, [
+    .run { timeout := 1, pre := [], body := [], term := .deferred },
+    .run { timeout := 9, pre := [], body := [.later 1 (.late false 1 7), .later 2 (.fire 3)], term := .deferred },
+    .run { timeout := 5, pre := [(1, .stop)], body := [], term := .deferred },
+    .clearJunk,
+    .swap,
+    .run { timeout := 9, pre := [], body := [.later 1 (.late false 1 7), .later 2 (.fire 4)], term := .deferred }]⟩)
+    = [.timeout, .value 3, .noresult, .value 4] := by decide
 
 end TTV.Props.C15
